@@ -3,6 +3,7 @@ use crate::CheckDef;
 pub mod c17;
 pub mod c21;
 pub mod c22;
+pub mod c23;
 pub mod c27;
 pub mod c28;
 pub mod c29;
@@ -38,6 +39,16 @@ pub fn registry() -> &'static [CheckDef] {
             cpu_budget_ms: 60_000,
             run: c22::run,
             assumptions: &["valid DATE = proleptic Gregorian year 1..9999 with a real day of month"],
+        },
+        CheckDef {
+            id: "C23",
+            level: "exploration",
+            rule: "Corpus harvested at run time from the repository's own test sources (SQL string literals, .sql/.test files; tens of thousands of statements) plus built-in statements of every kind; each case takes one corpus text and applies one mutation: verbatim, token delete/duplicate/swap, truncation at a random point, splice of two statements, nesting amplification (parentheses, NOT, unary minus, + chains, derived tables, CASE, function calls, IN-subqueries; depth 10..20000), huge numeric/string/identifier literals, unterminated quote/comment openers, injected Unicode/NUL/quote characters. Inputs are capped at 64 KiB. Oracle: catch_unwind for panics; the shard runner attributes aborts (stack overflow) and per-case CPU-budget overruns (4 s) to the running case. distinct = (mutation kind [+depth/size], parsed|error).",
+            floor: 20,
+            shards: 16,
+            cpu_budget_ms: 4_000,
+            run: c23::run,
+            assumptions: &["parser runs on the shard's main thread (8 MiB stack)", "never hangs is restated as: <= 4 s CPU for an input <= 64 KiB"],
         },
         CheckDef {
             id: "C27",
